@@ -224,13 +224,17 @@ def render_statement(stmt, names, layout, rng):
 
 
 def verbatim_code(j, form):
-    """Python text of the j-th verbatim statement: it reports its own execution if the model offers `vmark`."""
+    """Python text of the j-th verbatim statement: it reports its own execution if the model offers `vmark`.
+    line: one backticked assignment; fence: a fenced block whose report sits in an assert (its truth is the call's side
+    effect, so a build route that strips asserts loses it); same: the same text whichever statement it is."""
     call = f"getattr(self, 'vmark', int)({j})"
-    return f'_v = {call}' if form == 'line' else f'if True:\n    {call}'
+    if form == 'same':
+        return "_v = getattr(self, 'vmark', int)(0)"
+    return f'_v = {call}' if form == 'line' else f'if True:\n    assert {call} in (None, {j})'
 
 
 def verbatim_text(j, form):
-    return f'`{verbatim_code(j, form)}`' if form == 'line' else f'```\n{verbatim_code(j, form)}\n```'
+    return f'```\n{verbatim_code(j, form)}\n```' if form == 'fence' else f'`{verbatim_code(j, form)}`'
 
 
 def program_items(stmts, verbat=()):
